@@ -3,11 +3,18 @@ package backoff
 // C06 arithmetic harness: the real strategy object against Model/Backoff.v.
 
 import (
-	"time"
 	"fmt"
 	"math/big"
 	"testing"
+	"time"
+
+	cb "github.com/cenkalti/backoff"
 )
+
+// a clock which the test moves: the strategy must not depend on how long the process (or an outage) has lasted
+type vFakeClock struct{ now time.Time }
+
+func (c *vFakeClock) Now() time.Time { return c.now }
 
 func vRat(f float64) (int64, int64) {
 	// the simplest fraction within 1e-12 of f (continued fractions)
@@ -52,6 +59,21 @@ func TestVerifC06Backoff(t *testing.T) {
 		orbit = append(orbit, vCoqZ(int64(es.NextBackOff())))
 	}
 	vEmit(vCase{Class: "orbit-after-reset", Coq: fmt.Sprintf("COrbit %s %s", vCfgCoq(flat), vCoqList(orbit)), Sig: "orbit2"})
+	// the same orbit when a long time passes between the attempts (hours of uptime or of outage): the loop never gives up
+	for _, stepMin := range []int{1, 7, 20, 600} {
+		e4 := NewExponential(flat)
+		fc := &vFakeClock{now: time.Unix(1700000000, 0)}
+		if eb, ok := e4.BackOff.(*cb.ExponentialBackOff); ok {
+			eb.Clock = fc
+			eb.Reset()
+		}
+		var ob []string
+		for i := 0; i < 24; i++ {
+			fc.now = fc.now.Add(time.Duration(stepMin) * time.Minute)
+			ob = append(ob, vCoqZ(int64(e4.NextBackOff())))
+		}
+		vEmit(vCase{Class: "orbit-after-long-time", Coq: fmt.Sprintf("COrbit %s %s", vCfgCoq(flat), vCoqList(ob)), Sig: fmt.Sprintf("orbit-clock/%d", stepMin), Info: map[string]interface{}{"minutes_between_attempts": stepMin, "orbit": ob}})
+	}
 	// other configurations (the model is parametric)
 	for i := 0; i < 30; i++ {
 		c := Config{BaseDelay: 1 + time.Duration(r.Intn(5_000_000_000)), Multiplier: []float64{1, 1.5, 1.6, 2, 3}[r.Intn(5)], Jitter: 0, MaxDelay: 0}
